@@ -175,6 +175,23 @@ def run_unit(p, tier, seed):
                             r.outcome('refused')
                     except Exception as e:
                         r.v(PROPERTY, 'BitwiseFPEPRP', 'contract', 'wrong-exception', case, 'ValueError', core.exc_text(e))
+        # raw byte strings (and other bytes-like objects) instead of Bitsets: one whose size in bits is not the declared one is
+        # refused like any other wrong length (a too-short one must not be silently widened)
+        prp = P(key_bit_length=128, message_bit_length=16)
+        goodk = Bitset(g.getrandbits(128) | (1 << 127), 128)
+        goodm = Bitset(0x0105, 16)
+        for what, k_, m_ in (('short-bytes-message', goodk, b'\x05'), ('short-memoryview-message', goodk, memoryview(b'\x05')), ('empty-bytes-message', goodk, b''),
+                             ('short-bytearray-message', goodk, bytearray(b'\x05')), ('short-bytes-key', b'\x09', goodm), ('short-memoryview-key', memoryview(b'\x00\x09'), goodm),
+                             ('empty-bytes-key', b'', goodm), ('long-bytes-message', goodk, b'\x00\x01\x05')):
+            case = {'declared': [128, 16], 'bytes_like': what}
+            r['evaluations'] += 1
+            r['transitions'] += 1
+            r.count('fpeprp-contract')
+            try:
+                prp(k_, m_)
+                r.v(PROPERTY, 'BitwiseFPEPRP', 'contract', 'wrong-length-bytes-like-accepted', case, 'refused', 'accepted')
+            except Exception:
+                r.outcome('refused')
         # small-domain bijection through the PRP wrapper
         prp = P(key_bit_length=128, message_bit_length=6)
         k = Bitset(g.getrandbits(128) | (1 << 127), 128)
@@ -420,6 +437,24 @@ def run_unit(p, tier, seed):
                     r.v(PROPERTY, 'prp-objects', 'contract', 'own-valid-input-refused-while-other-objects-exist', c_, 'accepted', core.exc_text(e))
                 other = 'lr8' if nm == 'lr4' else 'lr4' if nm == 'lr8' else 'fpe16' if nm == 'fpe8' else 'fpe8'
                 must_raise('other-objects-lengths', lambda: objs[other][1](o, 7, 9), dict(c_, lengths_of=other))
+        # a pickled copy / a deep copy of a PRP object is the same permutation with the same contract
+        import pickle as _pickle, copy as _copy
+        for nm, (o, call, n) in objs.items():
+            for how, mk in (('pickled', lambda: _pickle.loads(_pickle.dumps(o))), ('deep-copied', lambda: _copy.deepcopy(o))):
+                c_ = {'object': nm, 'form': how}
+                r['evaluations'] += 1
+                try:
+                    o2 = mk()
+                    y = call(o2, 7, 9)
+                    img = bytes(y) if not isinstance(y, bytes) else y
+                    if img != first[nm]:
+                        r.v(PROPERTY, 'prp-objects', 'determinism', 'object-roundtrip/' + how, c_, 'same image as the original object', 'differs')
+                    r.count('prp-object-forms')
+                except Exception:
+                    r.count('prp-object-not-copyable (not demanded)')
+                    continue
+                other = 'lr8' if nm == 'lr4' else 'lr4' if nm == 'lr8' else 'fpe16' if nm == 'fpe8' else 'fpe8'
+                must_raise('other-objects-lengths/' + how, lambda: objs[other][1](o2, 7, 9), dict(c_, lengths_of=other))
         r.sample({'prim': 'LubyRackoff contracts'})
     det.restore()
     return r
